@@ -150,16 +150,16 @@ package diff
 
 // isSafeToSwap: exactly the integer and string types (floats are excluded: !(a >= b) is not a < b with NaN).
 //@ func computeVirtualControlFlow$1
-//@   ensures [C03.swap] result ==> totalOrderT(t)
+//@   ensures [C03.swap] [C04.norm] result ==> totalOrderT(t)
 //@   ensures [C02.swap] totalOrderT(t) ==> result
 
 //@ func computeVirtualControlFlow
 //@   noframe
-//@   mapupdate virtualBinOps assert [C03.swap] key == binOp && ((binOp.Op == token.GEQ && value == token.LSS) || (binOp.Op == token.GTR && value == token.LEQ))
-//@   mapupdate virtualBinOps assert [C03.swap] totalOrderT(typeOfV(binOp.X)) && totalOrderT(typeOfV(binOp.Y))
-//@   mapupdate virtualBinOps assert [C03.swap] ifInstr.Cond == iface(binOp, "*ssa.BinOp") && len(block.Succs) == 2
-//@   mapupdate virtualBinOps assert [C03.swap] refs != nil ==> forall k in 0..len(*refs) :: hasType((*refs)[k], "*ssa.DebugRef") || (*refs)[k] == iface(ifInstr, "*ssa.If")
-//@   mapupdate swappedBlocks assert [C03.swap] key == block && len(block.Succs) == 2
+//@   mapupdate virtualBinOps assert [C03.swap] [C04.norm] key == binOp && ((binOp.Op == token.GEQ && value == token.LSS) || (binOp.Op == token.GTR && value == token.LEQ))
+//@   mapupdate virtualBinOps assert [C03.swap] [C04.norm] totalOrderT(typeOfV(binOp.X)) && totalOrderT(typeOfV(binOp.Y))
+//@   mapupdate virtualBinOps assert [C03.swap] [C04.norm] ifInstr.Cond == iface(binOp, "*ssa.BinOp") && len(block.Succs) == 2
+//@   mapupdate virtualBinOps assert [C03.swap] [C04.norm] refs != nil ==> forall k in 0..len(*refs) :: hasType((*refs)[k], "*ssa.DebugRef") || (*refs)[k] == iface(ifInstr, "*ssa.If")
+//@   mapupdate swappedBlocks assert [C03.swap] [C04.norm] key == block && len(block.Succs) == 2
 //@   loop 1 modifies state.virtualBinOps
 //@   loop 1 modifies state.swappedBlocks
-//@   loop 2 invariant [C03.swap] 0 <= #i && #i <= len(*refs) && forall k in 0..#i :: hasType((*refs)[k], "*ssa.DebugRef") || (*refs)[k] == iface(ifInstr, "*ssa.If")
+//@   loop 2 invariant [C03.swap] [C04.norm] 0 <= #i && #i <= len(*refs) && forall k in 0..#i :: hasType((*refs)[k], "*ssa.DebugRef") || (*refs)[k] == iface(ifInstr, "*ssa.If")
